@@ -15,7 +15,11 @@ import Apko.Generated.Cache
   tied to the regenerated call lists).
 * `dirfs_physical` (full statement, **false**: F18c) with `not_dirfs_physical` (witness) and
   `dirfs_physical_partial` (no symlinks below the root ⇒ the kernel ends up inside the root).
-* `cache_path_within_root`, `etag_alphabet`, `etag_file_within_dir`, `keyfile_basename`, `keyname_no_slash`.
+* `cache_path_shape` / `cache_path_within_root_proved` / `cache_path_under_repo`, `etag_alphabet`, `etag_file_within_dir`,
+  `cache_dir_within_root`, `cache_writes_within_root` (+ `cache_writes_defined`), `pkg_cache_dir_within_root`.
+* `keyfile_basename` (`InitKeyring`), `keyfile_within_keys_dir` (full statement, **false**: `%2F` in an Alpine key URL,
+  `/` in a JWKS key id) with `not_keyfile_within_keys_dir`, `keyfile_within_keys_dir_partial`, `keyfile_host_confined`;
+  `keyname_no_slash`.
 -/
 namespace Apko.C18
 open Apko Apko.Path Apko.Confine
